@@ -115,7 +115,7 @@ def run(R, env):
     DG = deadline_guard("slippage", isM, expv, {"<"})
     found = []
     ok, off = guarded(w, DG, prog, env.depth, found)
-    R.ob("C04.R3", "LiquidStake:slippage-guard", n >= 1 and ok, "with expected_mint_amount supplied a success exit is reachable without `reject iff M < expected` (comparisons seen: %s): %s" % (DG.seen, off), fn=hk, found=found)
+    R.ob("C04.R3", "LiquidStake:slippage-guard", (n >= 1 or bool(found) or bool(DG.seen)) and ok, "with expected_mint_amount supplied a success exit is reachable without `reject iff M < expected` (comparisons seen: %s): %s" % (DG.seen, off), fn=hk, found=found)
     mn = lambda t: loaded_field(prog, t, "config", ["protocol_chain_config", "minimum_liquid_stake_amount"], CRATE)
     DG2 = deadline_guard("minimum", paid, mn, {"<"})
     found = []
